@@ -35,6 +35,27 @@ Theorem C05_exec : forall cfg p lst nmap x,
 Proof. exact allocated_exec. Qed.
 Print Assumptions C05_exec.
 
+(* Clone histories.  ir.Program.Clone copies the instructions (with whatever identifiers they
+   carry) and no pass results, so a clone is the program value itself: passes that ran on the
+   original only matter through the identifiers they left.  If the original was allocated under
+   configuration A, allocating its clone under B yields the whole property again for B, with the
+   chain of the original program: the allocation of a clone does not depend on what ran on the
+   original.  (For a clone of a program no allocator ran on, C05_exec applies directly.) *)
+Theorem C05_clone_history : forall cfgA cfgB p lst nmap x qA tA,
+  cfg_ok cfgB -> wf_ir p -> last_instr p = Some lst -> consistent nmap p ->
+  allocate cfgA p = Ok (qA, tA) ->
+  exists q temporaries, allocate cfgB qA = Ok (q, temporaries) /\
+    (forall i o, In i q -> In o (operands i) -> oname o <> []) /\
+    (forall i, In i q -> oname (iout i) <> cfg_in cfgB) /\
+    (forall mode, exists m, run_interp mode (cfg_in cfgB) (cfg_out cfgB) x q = Ok m /\
+        value_of m (cfg_out cfgB) = Some (chain_values x p (out_index lst)) /\
+        (mode = Separate -> value_of m (cfg_in cfgB) = Some x)) /\
+    (forall n, In n temporaries <->
+        (exists i o, In i q /\ In o (operands i) /\ oname o = n) /\ n <> cfg_in cfgB /\ n <> cfg_out cfgB) /\
+    NoDup temporaries.
+Proof. exact allocated_again. Qed.
+Print Assumptions C05_clone_history.
+
 (* "at least one instruction" is exactly the hypothesis last_instr p = Some _ *)
 Theorem C05_nonempty_has_last : forall p : iprogram, p <> [] -> exists lst, last_instr p = Some lst.
 Proof. exact last_instr_some. Qed.
